@@ -86,7 +86,7 @@ func (l Layout) Kind() string {
 	return k
 }
 
-func (l Layout) IsContig() bool { return len(l.Steps) == 0 || l.Final == "mat" }
+func (l Layout) IsContig() bool { return len(l.Steps) == 0 || l.Final == "mat" || l.Final == "phys" }
 func (l Layout) IsCM() bool     { return l.Root != "rm" }
 
 // Built is a realised layout.
@@ -362,6 +362,13 @@ func Build(arr Arr, l Layout, mask []bool) (b *Built, err error) {
 	}
 	switch l.Final {
 	case "":
+	case "phys":
+		// a lazily transposed tensor whose data has then been moved physically: contiguous
+		// again, but the data-order flags remember the transposition
+		if err := t.Transpose(); err != nil {
+			return nil, &LayoutErr{fmt.Sprintf("Transpose() of %v: %v", l, err)}
+		}
+		b.Detached = true // the storage has been rearranged: the root bookkeeping no longer applies
 	case "mat":
 		t = t.Materialize().(*tensor.Dense)
 		b.Detached = true
@@ -576,7 +583,7 @@ func genSliceStep(t *rapid.T, rank int, stepped bool, label string) LStep {
 
 // Layout kinds understood by genLayoutKind.
 var rmLayoutKinds = []string{"contig", "lazyT", "sliced", "stepsliced", "slicedT", "Tsliced", "picked", "materialized"}
-var c06LayoutKinds = []string{"contig", "lazyT", "sliced", "stepsliced", "materialized"}
+var c06LayoutKinds = []string{"contig", "lazyT", "sliced", "stepsliced", "materialized", "physT"}
 var cmLayoutKinds = []string{"cmraw", "cmconv", "cmraw+sliced", "cmraw+lazyT", "cmconv+sliced"}
 
 // genLayoutKind draws a recipe of the named kind for an array of the given rank.
@@ -601,6 +608,9 @@ func genLayoutKind(t *rapid.T, kind string, rank int, label string) Layout {
 	case "", "contig":
 	case "lazyT":
 		l.Steps = []LStep{{Op: "T", Perm: genNonIdPerm(t, rank, label+"perm")}}
+	case "physT":
+		l.Steps = []LStep{{Op: "T", Perm: genNonIdPerm(t, rank, label+"perm")}}
+		l.Final = "phys"
 	case "sliced":
 		l.Steps = []LStep{genSliceStep(t, rank, false, label)}
 	case "stepsliced":
@@ -656,9 +666,16 @@ func genShapeMin2(t *rapid.T, minRank, maxRank, maxDim int, label string) []int 
 }
 
 // genCodes draws n value codes: mostly small integers in [lo,hi], sometimes specials.
+// cplxCodes switches genCodes to the 2000-range (complex numbers with non-zero imaginary parts).
+var cplxCodes bool
+
 func genCodes(t *rapid.T, n int, lo, hi int64, specialPct int, label string) []int64 {
 	out := make([]int64, n)
 	for i := range out {
+		if cplxCodes && rapid.IntRange(0, 2).Draw(t, label+"cx") > 0 {
+			out[i] = 2000 + int64(rapid.IntRange(0, 48).Draw(t, label+"cxv"))
+			continue
+		}
 		if specialPct > 0 && rapid.IntRange(0, 99).Draw(t, label+"sp") < specialPct {
 			out[i] = 1000 + int64(rapid.IntRange(0, 11).Draw(t, label+"spi"))
 		} else {
